@@ -60,6 +60,7 @@ type vctx struct {
 	strPredLits  map[string]map[string]bool
 	inputs       []string
 	obNames      map[string]int
+	viaReach     map[string][]viaRec // top activation: call site label -> where and under which path condition it is executed
 	ufs          map[string]bool
 	anchorErrs   []string
 	ieee         bool
@@ -79,7 +80,7 @@ func (c *vctx) abstracted(what string) {
 func newVctx(fn string) *vctx {
 	return &vctx{fn: fn, log: newLog(), lits: map[string]Term{}, heapSorts: map[string]Sort{}, abstractions: map[string]int{},
 		opaqueCalls: map[string]int{}, externsUsed: map[string]bool{}, trustedUsed: map[string]bool{}, inlined: map[string]int{},
-		strPredLits: map[string]map[string]bool{}, obNames: map[string]int{}, ufs: map[string]bool{}}
+		strPredLits: map[string]map[string]bool{}, obNames: map[string]int{}, viaReach: map[string][]viaRec{}, ufs: map[string]bool{}}
 }
 
 func loadEngine(repo string, patterns []string, overlay map[string][]byte) (*Engine, error) {
